@@ -18,8 +18,9 @@ type SaveLoadPlan struct {
 	TMax      uint64 `json:"tmax"`       // target maximum (0: same as the source's current maximum)
 	ChunkSeed uint64 `json:"chunk_seed"` // short-read pattern of the reader
 	MaxChunk  int    `json:"max_chunk"`
-	CleanUp   bool   `json:"cleanup"`            // run CleanUp on the source before saving
-	ReadAdv   int64  `json:"read_adv,omitempty"` // the stream is slow: every Read of the load moves the clock by this much
+	CleanUp   bool   `json:"cleanup"`             // run CleanUp on the source before saving
+	HoldExec  bool   `json:"hold_exec,omitempty"` // harness-held executor: what was handed to it runs only after the save
+	ReadAdv   int64  `json:"read_adv,omitempty"`  // the stream is slow: every Read of the load moves the clock by this much
 	// Fault (separate, relaxed configuration): "truncate" - the stream ends early; "readerr" - a Read
 	// fails after FaultAt per mille of the bytes; "writeerr" - a Write of the save fails after that
 	// share and what was written until then is loaded. C19 does not speak about failing streams: the
@@ -113,14 +114,6 @@ func (s *seqState) saveLoad(w *simrt.World, sc *SeqCase) {
 	}
 	m.now = w.Now
 	tSave := m.now
-	savedVisible := map[int]mEntry{}
-	var savedWeight uint64
-	for k, e := range m.m {
-		if m.visible(k) != nil {
-			savedVisible[k] = *e
-			savedWeight += uint64(e.W)
-		}
-	}
 	st := &simStream{rng: simrt.NewRng(pl.ChunkSeed, 77), maxChunk: pl.MaxChunk, writeBudget: -1, readBudget: -1}
 	faulty := pl.Fault != ""
 	if pl.Fault == "writeerr" {
@@ -146,6 +139,16 @@ func (s *seqState) saveLoad(w *simrt.World, sc *SeqCase) {
 	s.evStart = len(r.Events)
 	s.pending = s.pending[:0]
 	s.matchEvents(&Op{Kind: "save"}, evs)
+	// what the source holds once the save's own maintenance has run (with a held executor the save is
+	// the first to replay the pending writes, and may evict): that is what must have been written
+	savedVisible := map[int]mEntry{}
+	var savedWeight uint64
+	for k, e := range m.m {
+		if m.visible(k) != nil {
+			savedVisible[k] = *e
+			savedWeight += uint64(e.W)
+		}
+	}
 	r.Advance(pl.Delta)
 	m.now = w.Now
 	tLoad := m.now
